@@ -116,6 +116,22 @@ pub trait Sk {
     fn views(&self) -> Views;
     /// the hasher's value of an item (computed independently with the same BuildHasherDefault)
     fn hash_of(&self, x: u64) -> u64;
+    /// densified sketchers only (guarded hook): (float bits, hashes, populated flags, number of empty bins)
+    fn raw(&self) -> Option<Raw> {
+        None
+    }
+    /// SetSketch only: merge a fresh same-parameter sketcher holding `items` into self; None when not supported
+    fn merge_items(&mut self, _items: &[u64]) -> Option<bool> {
+        None
+    }
+}
+
+#[derive(Clone, Debug, PartialEq, Eq)]
+pub struct Raw {
+    pub fl: Vec<u64>,
+    pub hashes: Vec<u64>,
+    pub init: Vec<bool>,
+    pub nb_empty: i64,
 }
 
 fn fbits64(v: &[f64]) -> Vec<u64> {
@@ -189,7 +205,7 @@ impl<H: Hasher + Default> Sk for Smh2<u32, H> {
     }
 }
 
-pub struct SetSk<I: num::Integer>(pub SetSketcher<I, u64, FnvHasher>);
+pub struct SetSk<I: num::Integer>(pub SetSketcher<I, u64, FnvHasher>, pub SsParams);
 macro_rules! impl_set {
     ($i:ty) => {
         impl Sk for SetSk<$i> {
@@ -217,6 +233,14 @@ macro_rules! impl_set {
             }
             fn hash_of(&self, x: u64) -> u64 {
                 BuildHasherDefault::<FnvHasher>::default().hash_one(&x)
+            }
+            fn merge_items(&mut self, items: &[u64]) -> Option<bool> {
+                let p = SetSketchParams::new(self.1.b.0, self.0.get_signature().len() as u64, self.1.a.0, self.1.q);
+                let mut o = SetSketcher::<$i, u64, FnvHasher>::new(p, Default::default());
+                for x in items {
+                    o.sketch(x).unwrap();
+                }
+                Some(self.0.merge(&o).is_ok())
             }
         }
     };
@@ -253,6 +277,10 @@ macro_rules! impl_dens {
             fn hash_of(&self, x: u64) -> u64 {
                 BuildHasherDefault::<FnvHasher>::default().hash_one(&x)
             }
+            fn raw(&self) -> Option<Raw> {
+                let (f, h, i, n) = self.0.verif_raw();
+                Some(Raw { fl: $bits(&f), hashes: h, init: i, nb_empty: n })
+            }
         }
     };
 }
@@ -271,8 +299,8 @@ pub fn make(kind: Kind, m: usize, ss: &SsParams) -> Box<dyn Sk> {
         Kind::Smh2U64 => Box::new(Smh2::<u64, FnvHasher>(SuperMinHash2::new(m, Default::default()))),
         Kind::Smh2U64NoHash => Box::new(Smh2::<u64, NoHashHasher>(SuperMinHash2::new(m, Default::default()))),
         Kind::Smh2U32 => Box::new(Smh2::<u32, XxHash32>(SuperMinHash2::new(m, Default::default()))),
-        Kind::SetU16 => Box::new(SetSk::<u16>(SetSketcher::new(ss.to_params(m), Default::default()))),
-        Kind::SetU32 => Box::new(SetSk::<u32>(SetSketcher::new(ss.to_params(m), Default::default()))),
+        Kind::SetU16 => Box::new(SetSk::<u16>(SetSketcher::new(ss.to_params(m), Default::default()), *ss)),
+        Kind::SetU32 => Box::new(SetSk::<u32>(SetSketcher::new(ss.to_params(m), Default::default()), *ss)),
         Kind::OptF64 => Box::new(Opt::<f64>(OptDensMinHash::new(m, Default::default()))),
         Kind::OptF32 => Box::new(Opt::<f32>(OptDensMinHash::new(m, Default::default()))),
         Kind::RevF64 => Box::new(Rev::<f64>(RevOptDensMinHash::new(m, Default::default()))),
